@@ -168,7 +168,7 @@ func init() {
 	// assembly: engine / group middleware, Use before and after registration, 404 and 405 chains.
 	// A program is a list of ops; the expectation is computed independently: the middleware ids
 	// visible on the group path at registration time, outermost first, then the route's handlers.
-	register(&Unit{Name: "c12.assembly", Props: []string{"C12"},
+	register(&Unit{Name: "c12.assembly", Props: []string{"C12", "C06"},
 		Check: func(t *T, in In) []Finding {
 			ops := strings.Fields(in.S(0))
 			opt := config.NewOptions(nil)
